@@ -54,7 +54,9 @@ func runC11Secs1(rt *rapid.T) {
 	var conns []*netsim.Conn
 	var hist []string
 	t0 := time.Now()
-	logf := func(f string, a ...any) { hist = append(hist, fmt.Sprintf("+%v ", time.Since(t0))+fmt.Sprintf(f, a...)) }
+	logf := func(f string, a ...any) {
+		hist = append(hist, fmt.Sprintf("+%v ", time.Since(t0))+fmt.Sprintf(f, a...))
+	}
 	defer func() {
 		_ = w.conn.Close()
 		for _, c := range conns {
